@@ -74,10 +74,11 @@ check("C01", "served content hashes to its digest", "exploration",
       "rapid state machine over upload protocols/algorithms/wrong digests; oracle = independent re-hash of every served body + refusal + blob-file scan",
       "Randomised stateful search over upload protocols (monolithic, POST+PUT, chunked with drawn boundaries), session/final algorithm combinations, interleaved sessions, "
       "mounts and manifest pushes with correct and wrong digests on both stores; every body served for any digest or tag of the case is re-hashed independently. "
-      "A second state machine drives the upload object of both stores directly (Write/Verify/ChangeAlgorithm in any order, then Close or Cancel): the name a blob is committed under must be the digest of all bytes written.",
+      "A second state machine drives the upload object of both stores directly (Write/Verify/ChangeAlgorithm in any order, then Close, Cancel, or Cancel followed by Close): the name a blob is committed under must be the digest of all bytes written. TestC01Faults (vfs build): the fault histories of TestC02Faults (failing reads and writes, short writes, a client that "
+      "resumes a failed chunk, restarts) - every file under blobs/<alg>/<hex> hashes to its name and every 200 carries bytes that hash to the digest it is served under.",
       "Trusted: crypto/sha256, crypto/sha512 of the Go standard library as the reference hash; in-process transport (httptest) instead of a socket.",
       "DESIGN.md §3 C01",
-      [R("^TestC01$", 6000, 300000, steps=25), R("^TestC01Store$", 16000, 1000000, steps=20)])
+      [R("^TestC01$", 6000, 300000, steps=25), R("^TestC01Store$", 16000, 1000000, steps=20), R("^TestC01Faults$", 4000, 200000, variant="vfs")])
 
 check("C02", "acknowledged pushes read back identically", "exploration",
       "rapid state machine vs reference model (bytes, length, digest, media type, range slices) over push/delete/collect/restart histories",
